@@ -10,7 +10,7 @@ use std::process::{Child, ChildStdin, ChildStdout, Command, Stdio};
 
 pub static PROP: Prop = Prop {
     id: "C19",
-    rule: "(a) differential: every program is run by this process (built with the rc memory strategy) and by a server process built from the same sources with the arc strategy; stdout, outcome class and error text must be identical. Programs: every runnable corpus item (guide, core-library docs, koto test scripts), proptest-generated core programs (the C01 generator: operators, containers, control flow) and function programs (closures, generators, captures), C14 container histories over aliased containers, C13 iterator pipelines and C15 string batches. (b) atomicity under arc, run inside the arc-built binary: N in {2, 4, 8} threads, each with its own runtime sharing ONE list or map through the prelude, run generated scripts of single-container operations (push / pop / insert / remove / extend / fill / resize / sort / reverse / clear / to_tuple / size / get / contains_key / update ...). Mixes are chosen so that an invariant is checkable: (i) counting: each thread pushes / inserts / extends by K distinct tagged items and nothing removes them: afterwards exactly N x K items, each once (no lost update); (ii) uniform fill: writers only `fill` / `resize ... value` with a per-thread constant while readers take `to_tuple()` snapshots: every snapshot is uniform within the region one operation writes (no partially updated container observed); (iii) paired extend: writers `extend` by a pair (x, x) and readers check every snapshot has even length with equal neighbours; (iv) every language-level read form (index, slice, size, first / last, get, contains, iteration, access, keys) looping against push / pop or insert / remove writers, and mixed mutation storms, with a watchdog: every thread finishes (no deadlock on a single container) and the container is still well-formed (size equals the number of iterated items, map keys unique). Non-trivial: (a) programs that build containers, closures or iterators; (b) every stress run.",
+    rule: "(a) differential: every program is run by this process (built with the rc memory strategy) and by a server process built from the same sources with the arc strategy; stdout, outcome class and error text must be identical. Programs: every runnable corpus item (guide, core-library docs, koto test scripts), proptest-generated core programs (the C01 generator: operators, containers, control flow) and function programs (closures, generators, captures), C14 container histories over aliased containers, C13 iterator pipelines and C15 string batches. (b) atomicity under arc, run inside the arc-built binary: N in {2, 4, 8} threads, each with its own runtime sharing ONE list or map through the prelude, run generated scripts of single-container operations (push / pop / insert / remove / extend / fill / resize / sort / reverse / clear / to_tuple / size / get / contains_key / update ...). Mixes are chosen so that an invariant is checkable: (i) counting: each thread pushes / inserts / extends by K distinct tagged items and nothing removes them: afterwards exactly N x K items, each once (no lost update), also while the other half of the threads reorder the whole container with callback-free operations (list sort / reverse, map sort); (ii) uniform fill: writers only `fill` / `resize ... value` with a per-thread constant while readers take `to_tuple()` snapshots: every snapshot is uniform within the region one operation writes (no partially updated container observed); (iii) paired extend: writers `extend` by a pair (x, x) and readers check every snapshot has even length with equal neighbours; (iv) every language-level read form (index, slice, size, first / last, get, contains, iteration, access, keys) looping against push / pop or insert / remove writers, and mixed mutation storms, with a watchdog: every thread finishes (no deadlock on a single container) and the container is still well-formed (size equals the number of iterated items, map keys unique). Non-trivial: (a) programs that build containers, closures or iterators; (b) every stress run.",
     assumptions: &[
         "the arc build is a second cargo target directory of the same engine crate (features = arc); it is rebuilt from /repo's working tree by ./check C19",
         "stress runs repeat with varied thread counts and mixes; interleavings are explored by repetition, not controlled scheduling (loom / shuttle cannot drive parking_lot locks inside koto without patching it)",
@@ -191,6 +191,22 @@ mod stress {
                     s.push_str(&format!("for i in 0..{k}\n  shared.extend ('{tid}:{{i}}',)\n"));
                 }
             }
+            "reorder-count-list" => {
+                // pushes of distinct values race with callback-free whole-list reorderings
+                if tid % 2 == 0 {
+                    s.push_str(&format!("for i in 0..{k}\n  shared.push '{tid}:{{i}}'\n"));
+                } else {
+                    let form = ["shared.sort()", "shared.reverse()"][(tid / 2 + seed as usize) % 2];
+                    s.push_str(&format!("for i in 0..{}\n  {form}\n", (k / 4).max(10)));
+                }
+            }
+            "reorder-count-map" => {
+                if tid % 2 == 0 {
+                    s.push_str(&format!("for i in 0..{k}\n  shared.insert '{tid}:{{i}}', i\n"));
+                } else {
+                    s.push_str(&format!("for i in 0..{}\n  shared.sort()\n", (k / 4).max(10)));
+                }
+            }
             "read-forms-list" => {
                 // language-level reads against push / pop writers; only termination is judged
                 if tid % 2 == 0 {
@@ -237,7 +253,7 @@ mod stress {
         let threads = req["threads"].as_u64().unwrap_or(4) as usize;
         let k = req["k"].as_u64().unwrap_or(200) as usize;
         let seed = req["seed"].as_u64().unwrap_or(1);
-        let is_map = matches!(mix.as_str(), "count-map" | "map-update" | "storm-map" | "extend-count-map" | "read-forms-map");
+        let is_map = matches!(mix.as_str(), "count-map" | "map-update" | "storm-map" | "extend-count-map" | "read-forms-map" | "reorder-count-map");
         let shared: KValue = if mix == "read-forms-map" {
             let m = KMap::default();
             m.insert("a", KValue::Number(1.into()));
@@ -330,6 +346,24 @@ mod stress {
                     return json!({"violation": "lost-update", "detail": format!("{n} items, {} distinct, expected {} (mix {mix}, {threads} threads x {k})", items.len(), threads * k)});
                 }
             }
+            "reorder-count-list" => {
+                let KValue::List(l) = &shared else { unreachable!() };
+                let mut items: Vec<String> = l.data().iter().map(|v| if let KValue::Str(s) = v { s.to_string() } else { "?".into() }).collect();
+                let n = items.len();
+                items.sort();
+                items.dedup();
+                let want = threads.div_ceil(2) * k;
+                if n != want || items.len() != want {
+                    return json!({"violation": "lost-update", "detail": format!("{n} items, {} distinct, expected {want} (mix {mix}, {} pushing threads x {k}, the others sort / reverse)", items.len(), threads.div_ceil(2))});
+                }
+            }
+            "reorder-count-map" => {
+                let KValue::Map(m) = &shared else { unreachable!() };
+                let want = threads.div_ceil(2) * k;
+                if m.len() != want {
+                    return json!({"violation": "lost-update", "detail": format!("{} entries, expected {want} (mix {mix}, the other threads sort)", m.len())});
+                }
+            }
             "count-map" | "extend-count-map" => {
                 let KValue::Map(m) = &shared else { unreachable!() };
                 if m.len() != threads * k {
@@ -379,7 +413,7 @@ mod stress {
     }
 }
 
-pub const MIXES: [&str; 11] = ["count-list", "count-map", "fill", "pairs", "map-update", "storm-list", "storm-map", "extend-count-map", "extend-count-list", "read-forms-list", "read-forms-map"];
+pub const MIXES: [&str; 13] = ["reorder-count-list", "reorder-count-map", "count-list", "count-map", "fill", "pairs", "map-update", "storm-list", "storm-map", "extend-count-map", "extend-count-list", "read-forms-list", "read-forms-map"];
 
 fn eval_stress(server: &mut ArcServer, mix: &str, threads: usize, k: usize, seed: u64) -> Eval {
     let mut ev = Eval::pass(true).class(intern(&format!("stress:{mix}")));
